@@ -264,6 +264,11 @@ fn emit_wrapped_loop_choice_body(
     }
 
     if !body_already_emitted {
+        // The choice line ends in a line break, also when it is a fallback choice
+        // without text (`* ->` followed by content lines): the content starts a new line.
+        if choice.is_invisible_default && !choice.body_divert_is_inline {
+            branch_nodes.push(Node::Newline);
+        }
         branch_nodes.extend(choice.body.clone());
     }
 
